@@ -74,6 +74,8 @@ const (
 	kReflect     = 1 // a = index of an earlier step; payload = the first reply seen there (else data)
 	kInterleaved = 2 // a = index of an earlier step; follow-up request built from its reply (else data)
 	kNTS         = 3 // a = variant; data[0] = first header byte
+	kParallel    = 5 // data = items (1-byte sender, 2-byte length, payload): written round-robin to several listener goroutines at once
+	kBurst       = 4 // data = items (2-byte length, payload) or (0xffff, NTS variant, first byte): sent back to back
 )
 
 type hdrSpec struct {
